@@ -51,7 +51,7 @@ def magnitudes():
     import numpy as np
     from uncertainties import ufloat
 
-    return {"int": 3, "float": 2.5, "Fraction": Fraction(1, 3), "Decimal": Decimal("1.50"), "ndarray": np.array([1.0, 2.5]), "ufloat": ufloat(1.5, 0.1)}
+    return {"int": 3, "float": 2.5, "Fraction": Fraction(1, 3), "Decimal": Decimal("1.50"), "ndarray": np.array([1.0, 2.5]), "ndarray0d": np.array(2.5), "ndarray2d": np.array([[1.0, 2.5], [0.5, 4.0]]), "ufloat": ufloat(1.5, 0.1)}
 
 
 def mag_equal(a, b):
@@ -102,6 +102,7 @@ def run_roundtrips(acc, nt):
                 ways = [(f"pickle-{p}", (lambda p: lambda o: pickle.loads(pickle.dumps(o, p)))(p)) for p in PROTOCOLS] + [("copy", copy.copy), ("deepcopy", copy.deepcopy)]
                 if kind.startswith("Quantity"):
                     ways.append(("tuple", lambda o: type(o).from_tuple(o.to_tuple())))
+                    ways.append(("Quantity(q)", lambda o: ureg.Quantity(o)))
                 for wname, fn in ways:
                     acc.ev()
                     acc.nt((nt, kind, ustr, wname))
@@ -121,12 +122,33 @@ def run_roundtrips(acc, nt):
                         ok = q_equal(r, obj) and r._REGISTRY is ureg
                     if not ok:
                         acc.violation(["round-trip", kind.split("[")[0], "result-differs-from-the-original", wname.split("-")[0]], case, show(obj), show(r))
-                    # the copy is independent of the original
-                    if wname in ("copy", "deepcopy") and kind.startswith("Quantity[ndarray]") and wname == "deepcopy":
-                        r._magnitude[0] = 99.0
-                        if obj._magnitude[0] == 99.0:
-                            acc.violation(["round-trip", "Quantity", "deepcopy-shares-the-magnitude-array", ""], case, "independent", "shared")
-                        obj._magnitude[0] = 1.0
+                    # a copy is a snapshot: in-place work on either object leaves the other one equal to what it was
+                    if wname in ("copy", "deepcopy", "Quantity(q)") and kind.startswith("Quantity[ndarray"):
+                        import numpy as np
+
+                        def imul(q):
+                            q *= 3
+
+                        def buf(q):
+                            q._magnitude[...] = 99.0
+
+                        def ito(q):
+                            q.ito_root_units()
+
+                        def iadd(q):
+                            q += q
+
+                        for mname, mut in (("*=", imul), ("buffer-write", buf), ("ito_root_units", ito), ("+=", iadd)):
+                            for direction in ("source-mutated", "copy-mutated"):
+                                acc.ev()
+                                src = ureg.Quantity(copy.deepcopy(mags[kind[9:-1]]), u)
+                                dup = fn(src)
+                                target, other = (src, dup) if direction == "source-mutated" else (dup, src)
+                                snap = (np.array(other._magnitude, copy=True), dict(other._units))
+                                if call(lambda: mut(target))[0] != "ok":
+                                    continue  # e.g. += on an offset unit: refused, nothing to compare
+                                if not (np.array_equal(other._magnitude, snap[0]) and dict(other._units) == snap[1]):
+                                    acc.violation(["round-trip", "Quantity", wname + "-shares-state-with-the-original", kind[9:-1]], dict(case, mutation=mname, direction=direction), show(ureg.Quantity(snap[0], u)), show(other))
             acc.outcome("units:" + (ustr or "dimensionless"))
     finally:
         pint.set_application_registry(pint.UnitRegistry.__new__(pint.UnitRegistry) if False else regs.default("float"))
@@ -603,8 +625,8 @@ MANIFEST = {
     "technique": "explicit-state BFS over histories of a registry and its deep copy (fork at any point) with a fresh-registry differential oracle; bounded exhaustive enumeration of round trips (incl. a fresh interpreter) and of cross-registry operator cells",
     "text": "Histories: all sequences up to depth 3 (4) over 13 events — take the deep copy, define on either side (incl. the same name with another value), enable/disable a redefining context, change the default "
     "system, lazily register a prefixed unit, cache-filling queries — are replayed on a generated registry; the source and the copy must each answer 9 probes like a fresh registry that saw only its own events, "
-    "and share no mutable state. Exhaustive: 5 object kinds x 10 unit expressions (with prefixed units registered lazily) x 6 magnitude types x {pickle 0-5, copy, deepcopy, tuple} in float/Fraction/Decimal "
-    "registries; all those pickles loaded in a fresh interpreter (attached to the application registry, prefixed units registered first, magnitudes intact); 21 exception instances (constructed and as raised) x "
+    "and share no mutable state. Exhaustive: 5 object kinds x 10 unit expressions (with prefixed units registered lazily) x 8 magnitude types (incl. 0-d, 1-d and 2-d ndarrays) x {pickle 0-5, copy, deepcopy, tuple, Quantity(q)} in float/Fraction/Decimal "
+    "registries; a copy / deepcopy / Quantity(q) of an array-valued quantity is a snapshot: 4 in-place operations (*=, +=, ito_root_units, a write into the buffer) on either object leave the other unchanged; all those pickles loaded in a fresh interpreter (attached to the application registry, prefixed units registered first, magnitudes intact); 21 exception instances (constructed and as raised) x "
     "8 ways (type, fields, args, message); 14 operators x {Quantity, Unit} operand kinds x scalar/array x 4 registry-pair kinds (fresh/fresh, source/deepcopy, deepcopy/source, application/explicit) must raise "
     "ValueError; the lazily built default registry equals an explicit one on 12 probes in fresh interpreters.",
     "note": "Trusted: pickle/copy themselves; the probe sets. == across registries is not asserted (the property names arithmetic and ordering). Duck arrays other than ndarray are outside.",
